@@ -121,6 +121,9 @@ fn ref_decode(wire: &[u8]) -> Option<Vec<Vec<u8>>> {
     }
     let mut out = vec![];
     for f in frames {
+        if !plain_body(&f) {
+            return None;
+        }
         let m = pb::Msg::decode(&f)?;
         for (n, v) in &m.fields {
             if *n == 1 && !matches!(v, pb::Val::Bytes(_)) {
@@ -130,6 +133,50 @@ fn ref_decode(wire: &[u8]) -> Option<Vec<Vec<u8>>> {
         out.push(m.get_bytes(1).map(|b| b.to_vec()).unwrap_or_default());
     }
     Some(out)
+}
+
+/// the reference has an opinion only on bodies made of ordinary fields: field numbers 1..2^29-1,
+/// wire types 0/1/2/5, no 10-byte varints (overflow rules), everything complete
+fn plain_body(mut b: &[u8]) -> bool {
+    fn vi(b: &[u8]) -> Option<(u64, usize)> {
+        let r = pb::get_uvarint(b)?;
+        if r.1 >= 10 { None } else { Some(r) }
+    }
+    while !b.is_empty() {
+        let Some((key, k)) = vi(b) else { return false };
+        b = &b[k..];
+        let field = key >> 3;
+        if field == 0 || field > (1 << 29) - 1 {
+            return false;
+        }
+        match key & 7 {
+            0 => {
+                let Some((_, k)) = vi(b) else { return false };
+                b = &b[k..];
+            }
+            1 => {
+                if b.len() < 8 {
+                    return false;
+                }
+                b = &b[8..];
+            }
+            2 => {
+                let Some((n, k)) = vi(b) else { return false };
+                if ((b.len() - k) as u64) < n {
+                    return false;
+                }
+                b = &b[k + n as usize..];
+            }
+            5 => {
+                if b.len() < 4 {
+                    return false;
+                }
+                b = &b[4..];
+            }
+            _ => return false,
+        }
+    }
+    true
 }
 
 /// reference encoder with harmless variations a conforming decoder must accept
